@@ -75,7 +75,7 @@ type C15Empty struct{}
 type C15Embed struct {
 	C15In
 	*C15In2
-	c15unexp       // unexported embedded type: skipped
+	c15unexp // unexported embedded type: skipped
 	C15Empty `json:"renamed"`
 	Own      int64
 }
@@ -100,11 +100,11 @@ type C15Unexported struct {
 
 // excluded fields of unsupported kinds
 type C15ExcludedBad struct {
-	A chan int    `json:"-"`
-	B func()      `bq:"-"`
-	C any         `json:"-,"`
-	D complex64   `json:"-"`
-	E uint32      `bq:"-"`
+	A chan int        `json:"-"`
+	B func()          `bq:"-"`
+	C any             `json:"-,"`
+	D complex64       `json:"-"`
+	E uint32          `bq:"-"`
 	F *C15ExcludedBad `json:"-"` // recursion behind an excluded field is never seen
 	G int64
 }
@@ -429,9 +429,9 @@ func (c c20PairCodec) Read(r *avro.ReadBuf, p unsafe.Pointer) error {
 	c.n.Read++
 	return c.inner.Read(r, p)
 }
-func (c c20PairCodec) Skip(r *avro.ReadBuf) error            { c.n.Skip++; return c.inner.Skip(r) }
-func (c c20PairCodec) New(r *avro.ReadBuf) unsafe.Pointer    { c.n.New++; return r.Alloc(c20PairT) }
-func (c c20PairCodec) Omit(p unsafe.Pointer) bool            { c.n.Omit++; return c.inner.Omit(p) }
+func (c c20PairCodec) Skip(r *avro.ReadBuf) error               { c.n.Skip++; return c.inner.Skip(r) }
+func (c c20PairCodec) New(r *avro.ReadBuf) unsafe.Pointer       { c.n.New++; return r.Alloc(c20PairT) }
+func (c c20PairCodec) Omit(p unsafe.Pointer) bool               { c.n.Omit++; return c.inner.Omit(p) }
 func (c c20PairCodec) Write(w *avro.WriteBuf, p unsafe.Pointer) { c.n.Write++; c.inner.Write(w, p) }
 
 func c20PairBuilder(k int64) avro.CodecBuildFunc {
@@ -566,7 +566,7 @@ func c20RegSchema(name, variant string) avro.Schema {
 	switch name {
 	case "Cents":
 		if variant == "alt" {
-			return avro.Schema{Type: "int"}
+			return avro.Schema{Type: "long", Object: &avro.SchemaObject{LogicalType: "timestamp-millis"}}
 		}
 		return avro.Schema{Type: "long"}
 	case "Tag":
@@ -584,7 +584,7 @@ func c20RegSchema(name, variant string) avro.Schema {
 	case "IDs":
 		it := avro.Schema{Type: "long"}
 		if variant == "alt" {
-			it = avro.Schema{Type: "int"}
+			it = avro.Schema{Type: "long", Object: &avro.SchemaObject{LogicalType: "timestamp-micros"}}
 		}
 		return avro.Schema{Type: "array", Object: &avro.SchemaObject{Items: it}}
 	}
@@ -701,4 +701,17 @@ func c20Zero(name string) any {
 		}
 	}
 	return nil
+}
+
+// one custom type each, for the caller-schema matrix
+type C20OneC struct{ C Cents }
+type C20OneT struct{ T Tag }
+type C20OneP struct{ P Pair }
+type C20OneI struct{ I IDs }
+
+func init() {
+	c20Containers["C20OneC"] = C20OneC{}
+	c20Containers["C20OneT"] = C20OneT{}
+	c20Containers["C20OneP"] = C20OneP{}
+	c20Containers["C20OneI"] = C20OneI{}
 }
